@@ -436,7 +436,7 @@ static void deep_cases(void)
         if (T[i].close) { if (T[i].open == '{' || T[i].leaf) s[n++] = '1'; for (d = 0; d < T[i].depth; d++) s[n++] = T[i].close; if (extra) s[n++] = (T[i].prefix[0] == '[') ? ']' : '}'; }
         al_case_begin();
         job.buf = s; job.len = n; job.res = NULL;
-        pthread_attr_init(&at); pthread_attr_setstacksize(&at, 512 * 1024);
+        pthread_attr_init(&at); pthread_attr_setstacksize(&at, (size_t)4 << 20);      /* 4 MiB: 4 KiB per admitted level, far less than 100 000 levels of unbounded recursion need (a property-preserving parser with larger frames ran out of 512 KiB) */
         VD.cases++;
         if (VD_TRY()) {
             pthread_create(&th, &at, deep_thread, &job); pthread_join(th, NULL);
